@@ -966,7 +966,13 @@ def _run(ck, ctx, tier):
     verdicts = []
     CH = 20000
     for off in range(0, len(cases), CH):
-        verdicts += evaluate(ctx, cases[off:off + CH])
+        vs = evaluate(ctx, cases[off:off + CH])
+        for v in vs:
+            if not v["unsupported"] and not bad(v):       # keep the outcome, drop the call sequences
+                for o in (v["impl"], v.get("model"), v.get("spec")):
+                    if o and o.get("steps"):
+                        o["steps"] = [(r, None) for r, _ in o["steps"]]
+        verdicts += vs
         log(f"[C13] evaluated {min(off + CH, len(cases))}/{len(cases)} cases")
     run_plain(ctx)
     for v in verdicts[::max(1, len(verdicts) // 8)]:
@@ -1001,7 +1007,8 @@ def _run(ck, ctx, tier):
         elif ts and ts in seen_tagsets:
             ck.cov["impl_property_failures"] += 1          # same class as an already reported known finding
         elif ts:
-            if ck.impl_violation(case_text(v["case"]), describe(v), tags=v["tags"]):
+            full = evaluate(ctx, [dict(v["case"], decoy=False)], count=False)[0]      # with the call sequences again
+            if ck.impl_violation(case_text(v["case"]), describe(full if full["tags"] == v["tags"] else v), tags=v["tags"]):
                 untagged.append(v)                          # tag without a known-findings entry
             else:
                 seen_tagsets.add(ts)
